@@ -349,8 +349,8 @@ def narrow(I, st, v, name):
         for q, flds in I.w.instance_fields.items():
             if name in flds and q in I.w.class_ids and q not in owners:
                 owners.insert(0, q)
-        # keep only the most general definers
-        owners = [q for q in owners if not any(o != q and o in I.w.class_mro.get(q, ()) for o in owners)]
+        # most specific definers first: the value's known class decides which definition applies
+        owners.sort(key=lambda q: -len(I.w.class_mro.get(q, ())))
         NARROW_CACHE[key] = owners
     t = v.t
     ck = (t.get_id(), name)
@@ -423,6 +423,16 @@ def getattr_sym(I, st, v, name, fr, k):
         loc = get_loc(t)
         val = s2.read(name, loc)
         s2.fact(z3.Implies(is_ref(val), get_loc(val) < s2.frontier))
+        vol = getattr(I.cur, "volatile_fields", None) if I.cur is not None else None
+        if vol and name in vol and not fr.spec and fr.depth == 0:
+            # rely: another thread may have set this field to None at any time (monotone: once None, stays None)
+            b_ = z3.Bool(I.w.fresh("gone_" + name))
+            prev = s2.ghost.get("$gone_" + name)
+            if prev is not None:
+                s2.fact(z3.Implies(get_b(prev.t), b_))
+            s2.ghost["$gone_" + name] = Sym(mk_bool(b_))
+            note(I, f"volatile field .{name}: every read may observe None once another thread cleared it (rely: monotone to None)")
+            val = z3.If(b_, NONE, val)
         return k(s2, Sym(val, field_hint(I, hint, name)))
     if fr.spec:
         return ok(st)         # specs have total (logical) semantics: a field of a non-object is an unspecified value
